@@ -53,6 +53,7 @@ type Result struct {
 	Crash     string            `json:"crash,omitempty"` // worker died during this run: stderr signature
 	Args      map[string]string `json:"-"`
 	Batch     []uint64          `json:"-"` // seeds the worker process ran before (and including) this one
+	Race      bool              `json:"-"` // came from a race-detector worker
 }
 
 type Job struct {
@@ -66,6 +67,7 @@ type Job struct {
 	Args     map[string]string `json:"args,omitempty"`
 	MaxWall  int               `json:"max_wall_s"`
 	KeepTape bool              `json:"keep_tape"`
+	TapeLog  string            `json:"tape_log,omitempty"`
 }
 
 type Replay struct {
@@ -219,6 +221,7 @@ func runWorker(worker string, job *Job, race bool, timeout time.Duration) (resul
 				var r Result
 				if e := json.Unmarshal([]byte(ln[7:]), &r); e == nil {
 					r.Args = job.Args
+					r.Race = race
 					if r.Violation != nil && len(results) > 0 {
 						r.Batch = append([]uint64{}, job.Seeds[:len(results)+1]...)
 					}
@@ -246,7 +249,7 @@ func runWorker(worker string, job *Job, race bool, timeout time.Duration) (resul
 	if race && !hang {
 		if sig, n := raceSignature(stderr.String()); sig != "" && len(job.Seeds) == 1 {
 			// one run per process under -race: the report belongs to this run
-			cr := &Result{Seed: job.Seeds[0], Scenario: job.Scenario, Prop: job.Prop, Crash: sig, Args: job.Args}
+			cr := &Result{Seed: job.Seeds[0], Scenario: job.Scenario, Prop: job.Prop, Crash: sig, Args: job.Args, Race: true}
 			if len(results) == 1 {
 				cr.Journal, cr.Tape = results[0].Journal, results[0].Tape
 				if results[0].Violation != nil {
@@ -259,7 +262,7 @@ func runWorker(worker string, job *Job, race bool, timeout time.Duration) (resul
 	}
 	if !doneSeen || werr != nil {
 		if haveStart {
-			cr := &Result{Seed: started, Scenario: job.Scenario, Prop: job.Prop, Crash: crashSignature(stderr.String()), Args: job.Args}
+			cr := &Result{Seed: started, Scenario: job.Scenario, Prop: job.Prop, Crash: crashSignature(stderr.String()), Args: job.Args, Race: race}
 			return results, cr, st, nil
 		}
 		if !doneSeen {
@@ -738,10 +741,10 @@ func report(prop, tier string, base uint64, t0 time.Time, ag *agg, infra []strin
 		seenClass[f.class] = true
 		nviol++
 		worker := workerPlain
-		if raceOf[f.r.Scenario] {
+		if f.r.Race {
 			worker = workerRace
 		}
-		rp, ok := confirmAndShrink(prop, tier, worker, raceOf[f.r.Scenario], f.r, f.class, noShrink)
+		rp, ok := confirmAndShrink(prop, tier, worker, f.r.Race, f.r, f.class, noShrink)
 		if !ok {
 			fmt.Fprintf(os.Stderr, "vcheck: INFRA: failure %s at seed %d (%s) did not reproduce on replay: simulator defect, not reported as a violation\n", f.class, f.r.Seed, f.r.Scenario)
 			if exit == 0 {
@@ -823,10 +826,26 @@ func confirmAndShrink(prop, tier, worker string, race bool, r *Result, class str
 		return nil, false
 	}
 	if tape == nil && got.Crash != "" {
-		// cannot shrink without a recorded tape; record the seed-only replay
-		return mkReplay(prop, r, got, nil, class, race, "not shrunk: process death leaves no recorded tape; replay by seed"), true
+		// a process death leaves no result: run the seed once more with the tape logged to a
+		// file draw by draw, and minimise from what was drawn before the death
+		tl := filepath.Join(scratch, fmt.Sprintf("tape-%d.bin", r.Seed))
+		job := &Job{Prop: prop, Scenario: r.Scenario, Tier: tier, Seeds: []uint64{r.Seed}, Args: r.Args, TapeLog: tl}
+		runWorker(worker, job, race, 120*time.Second)
+		if b, err := os.ReadFile(tl); err == nil && len(b) >= 4 {
+			for i := 0; i+4 <= len(b); i += 4 {
+				tape = append(tape, uint32(b[i])|uint32(b[i+1])<<8|uint32(b[i+2])<<16|uint32(b[i+3])<<24)
+			}
+			if g2, ok2 := check(tape); ok2 {
+				got = g2
+			} else {
+				tape = nil
+			}
+		}
+		if tape == nil {
+			return mkReplay(prop, r, got, nil, class, race, "not shrunk: process death leaves no recorded tape; replay by seed"), true
+		}
 	}
-	if tape != nil && got.Journal != r.Journal && r.Journal != "" {
+	if tape != nil && r.Crash == "" && got.Journal != r.Journal && r.Journal != "" {
 		return nil, false
 	}
 	best, bestRes := tape, got
